@@ -19,8 +19,31 @@ def design(ctx):
     mc_must_fail(ctx, "tree", "BTreeCursor", "bc5_nozero.cfg", "mergeTwo without right.n = 0", expect="NotBad")
 
 
+def cursor_conformance(ctx, runs, ops):
+    """binding of the structural I-layer to the code: recorded histories of a real tree.Map with open iterators are
+    re-executed on BTreeCursor.tla with the shipped fan-out; after every call the node structure and every cursor
+    (node, index, remembered key, generation seen) must agree with the hooks' read-outs. A disagreement is model
+    drift (a note), never a verdict - verdicts come from the P-layer only."""
+    import vlib
+    tf = ctx.path("cursor.ndjson")
+    rc, o = ctx.run_vh(["drive", "cursor", "-out", tf, "-runs", str(runs), "-ops", str(ops)])
+    if rc != 0:
+        raise vlib.Trouble("cursor driver died: " + o[-1500:])
+    acc, r, hwm = ctx.tv("tree", "Trace_Cursor", "tvc.cfg", tf, timeout=3000)
+    n = sum(1 for _ in open(tf))
+    ctx.extra.setdefault("model_drift_checks", []).append({"model": "BTreeCursor", "events": n, "node_and_cursor_agreement": acc,
+                                                            "first_disagreement_line": None if acc else hwm})
+    if acc:
+        ctx.traces += runs
+        ctx.log("cursor conformance: BTreeCursor agrees with the code on %d events (structure and every cursor position)" % n)
+    else:
+        ctx.notes.append("model-drift: BTreeCursor and the code's structure / cursor positions disagree at line %s (not a verdict)" % hwm)
+        ctx.log("cursor conformance: DISAGREEMENT at line %s (note only)" % hwm)
+
+
 def run(ctx):
     design(ctx)
+    cursor_conformance(ctx, ctx.pick(30, 300), ctx.pick(300, 600))
     # R: P-layer graph with one iterator (6 bound pairs x 2 directions) under every interleaving of Put/Delete/Next
     for variant in ("int", "rev", "set"):
         lts_replay(ctx, "tree", "SortedMap", "lts_it.cfg", "tree4", variant=variant, depth=ctx.pick(4, 5), walks=ctx.pick(6000, 60000), wlen=40,
